@@ -30,10 +30,12 @@ class Execution:
 
 def run_execution(harness, params, prefix):
     s = sched.Scheduler(prefix=prefix, horizon=getattr(harness, "horizon", 4000),
-                        time_horizon=getattr(harness, "time_horizon", None),
+                        time_horizon=(params.get("time_horizon") if isinstance(params, dict) and "time_horizon" in params
+                                      else getattr(harness, "time_horizon", None)),
                         fair_k=getattr(harness, "fair_k", 150))
     fp = getattr(harness, "fingerprint", None)
     s.lock_points = getattr(harness, "lock_points", True)
+    s.free_cost = getattr(harness, "free_cost", 0)
     sched.ACTIVE = s
     if fp is not None:
         s.fingerprint = fp(params, s)
@@ -75,7 +77,7 @@ def children(ex, bound, expand_limit=600):
             break
         if i >= len(ex.prefix):
             for alt in range(n):
-                if alt != c and cum + costs[alt] <= bound:
+                if alt != c and cum + costs[alt] <= bound + 1e-9:
                     out.append(tuple(base[:i]) + ((alt, n),))
         cum += costs[c]
     return out
@@ -172,12 +174,21 @@ def explore(harness, param_list, bound, max_exec_per_param=None, deadline=None, 
     known = set(f["key"] for f in known_findings() if f.get("status") == "known")
 
     def seed_work(params):
-        # root execution + first expansion done here; subtrees are the units of parallel work
+        # breadth-first expansion near the root until there are enough independent subtrees to share out
         harness.setup_process()
         st = Stats()
-        ex = run_execution(harness, params, ())
-        _account(st, harness, params, ex)
-        return st, children(ex, params.get("bound", bound))
+        b = params.get("bound", bound)
+        frontier = [()]
+        want = max(48, (jobs * 12) // max(1, len(param_list)))
+        while frontier and len(frontier) < want and not STOP.value:
+            prefix = frontier.pop(0)
+            ex = run_execution(harness, params, prefix)
+            _account(st, harness, params, ex)
+            if any(v[0] not in known for v in st.violations):
+                STOP.value = 1
+            lim = getattr(harness, "expand_limit", 300) if ex.verdict == "horizon" else 600
+            frontier.extend(children(ex, b, expand_limit=lim))
+        return st, frontier
 
     def sub_work(task):
         params, roots = task
@@ -191,11 +202,10 @@ def explore(harness, param_list, bound, max_exec_per_param=None, deadline=None, 
     tasks = []
     for params, (st, kids) in zip(param_list, seeds):
         total.merge(st)
-        k = max(1, min(len(kids), (jobs * 3) // max(1, len(param_list)) + 1))
-        for i in range(k):
-            part = kids[i::k]
-            if part:
-                tasks.append((params, part))
+        for r in kids:
+            tasks.append((params, [r]))
+    # heavy subtrees first: deeper bounds and shorter prefixes (closer to the root) are bigger
+    tasks.sort(key=lambda t: (-t[0].get("bound", bound), sum(1 for c, n in t[1][0] if c), len(t[1][0])))
     for st in pmap(sub_work, tasks, jobs):
         total.merge(st)
     return total
